@@ -25,7 +25,7 @@ impl Engine for HbE2e {
                 let stop = Arc::new(AtomicBool::new(false));
                 let silent = Arc::new(AtomicBool::new(false));
                 let seen = Arc::new(Mutex::new(Seen::default()));
-                let cfg = AutoConfig { ch_max: 0, frame_max: 131072, heartbeat: sh, confirms: false, eof_after_close_ok: true, silent: silent.clone() };
+                let cfg = AutoConfig { ch_max: 0, frame_max: 131072, heartbeat: sh, confirms: false, eof_after_close_ok: true, close_ok_delay_ms: if *mode == "slowclose" { observe } else { 0 }, silent: silent.clone() };
                 let bt = {
                     let (p, s, st) = (peer.clone(), stop.clone(), seen.clone());
                     std::thread::spawn(move || broker::auto_broker(p, cfg, s, st))
@@ -47,10 +47,20 @@ impl Engine for HbE2e {
                 if *mode == "silent" {
                     silent.store(true, Ordering::SeqCst);
                 }
-                let deadline = opened_at + Duration::from_millis(observe);
+                let deadline = opened_at + Duration::from_millis(if *mode == "slowclose" { 0 } else { observe });
                 let mut death: Option<Instant> = None;
                 let mut next_beat = opened_at;
+                let hb_bytes = broker::heartbeat();
+                let mut dribble_at = 0usize;
                 while Instant::now() < deadline {
+                    // "dribble": one byte of a heartbeat frame every 0.4 h - the server is sending
+                    // all the time, but a frame completes only every 3.2 h
+                    if *mode == "dribble" && Instant::now() >= next_beat {
+                        peer.push(&hb_bytes[dribble_at..dribble_at + 1]);
+                        dribble_at = (dribble_at + 1) % hb_bytes.len();
+                        last_server_send = Instant::now();
+                        next_beat += Duration::from_millis((u64::from(sh.min(ch).max(1)) * 400) as u64);
+                    }
                     if *mode == "chatty" && Instant::now() >= next_beat {
                         peer.push(&broker::heartbeat());
                         last_server_send = Instant::now();
@@ -85,6 +95,20 @@ impl Engine for HbE2e {
                 }
                 silent.store(false, Ordering::SeqCst);
                 let r = conn.close();
+                if *mode == "slowclose" {
+                    // everything the client wrote after its Connection.Close
+                    std::thread::sleep(Duration::from_millis(50));
+                    let (_h, frames, rest) = split_written(&peer.written());
+                    let pos = frames.iter().position(|(ft, ch, p)| *ft == 1 && *ch == 0 && p.len() >= 4 && p[..4] == [0, 10, 0, 50]);
+                    match pos {
+                        Some(i) => out.push(format!(
+                            "after-close {}{}",
+                            frames[i + 1..].iter().map(|(ft, ch, _)| format!("{}@{}", ft, ch)).collect::<Vec<_>>().join(" "),
+                            if rest.is_empty() { String::new() } else { format!(" +{}stray", rest.len()) }
+                        )),
+                        None => out.push("after-close no-close-frame".into()),
+                    }
+                }
                 out.push(match r {
                     Ok(()) => "close ok".into(),
                     Err(e) => format!("close err {}", err_token(&e)),
